@@ -560,6 +560,81 @@ def run(prog, rep, tier):
                 rep.violation(R137, "%s|pieces|%d" % (p, len(lines_)), "%s: %s; removing the colour escapes would not give back the line's bytes" % (p.split("::")[-1], problems[0]))
     rep.floor(R137, 12, "(colour variants slicing their line around the datetime)")
 
+    # ------------------------------------------------------------ R13.9 one separator, literal in both fields
+    # The same --prepend-separator text follows the file-name field and the datetime field.  The file
+    # field is built with format!() (text is literal there); the datetime field is a strftime format,
+    # so the separator must be escaped ('%' -> '%%') exactly there and nowhere else:
+    #  (a) cli_process_args returns the option value itself (no rewriting before it is shared),
+    #  (b) processing_loop uses the parameter directly for the file field,
+    #  (c) and appends it to the datetime format only through replace('%', "%%").
+    R139 = rep.rule("R13.9", "the prepend separator reaches the file field verbatim and the datetime format with '%' escaped")
+    ca = prog.body("s4::cli_process_args")
+    direct = False
+    rewritten = []
+    for bb in sorted(ca.live):
+        for s_ in ca.stmts(bb):
+            if s_[0] == "=" and s_[1] == [0] and s_[2][0] == "agg":
+                for o_ in s_[2][2]:
+                    if o_[0] == "k":
+                        continue
+                    for x in ca.origins(o_):
+                        if x[0] in ("arg", "local", "call") and "prepend_separator" in str(x):
+                            if x[0] == "call" and not (x[2].endswith("Parser::parse") and "prepend_separator" in str(x[-1])):
+                                rewritten.append(x[2].split("::")[-1])
+                            else:
+                                direct = True
+    # any call result that is computed from the option and returned instead of it
+    for c_ in ca.live_calls():
+        if c_.args and any("prepend_separator" in str(x) for a in c_.args if a[0] != "k" for x in ca.origins(a)) and (c_.o or c_.d).split("::")[-1] in ("replace", "replacen", "trim", "to_uppercase", "to_lowercase", "escape_default", "repeat"):
+            rewritten.append((c_.o or c_.d).split("::")[-1])
+    rep.examined(R139, ca.path + "|returned", sample={"option_value_returned_directly": direct, "rewrites_of_the_option": rewritten})
+    if not direct or rewritten:
+        rep.violation(R139, ca.path + "|returned", "cli_process_args: the --prepend-separator value is rewritten (%s) before it is shared by the file-name field and the datetime field; "
+                      "the file field then shows the rewritten text (e.g. '%%%%' for '%%') while the datetime field shows the original" % (rewritten or "not returned directly"))
+    pl_ = prog.body("s4::processing_loop")
+    sep_l = [i_ for i_, l_ in enumerate(pl_.locals) if l_.get("name") == "cli_prepend_separator"]
+    if len(sep_l) != 1:
+        raise CheckerError("processing_loop: parameter cli_prepend_separator not found")
+    sl = sep_l[0]
+    esc = []
+    raw_fmt = 0
+    raw_add = []
+    for c_ in pl_.live_calls():
+        nm = (c_.o or c_.d)
+        last = nm.split("::")[-1]
+        if last == "replace" and c_.args and any(x[0] == "arg" and x[1] == sl or (x[0] == "local" and x[1] == sl) for x in pl_.origins(c_.args[0], through_calls=("::deref", "::as_str"))):
+            ks = [a[2] for a in c_.args[1:] if a[0] == "k"] + [x[1] for a in c_.args[1:] if a[0] != "k" for x in pl_.origins(a) if x[0] == "const"]
+            if any(str(k_).strip("'\"") == "%" for k_ in ks) and any(str(k_).strip("'\"") == "%%" for k_ in ks):
+                esc.append(c_)
+        if last in ("new_display", "new_debug") and c_.args and any((x[0] in ("arg", "local")) and x[1] == sl for x in pl_.origins(c_.args[0])):
+            raw_fmt += 1
+        if (last == "add" or last == "push_str") and len(c_.args) >= 2:
+            os_ = pl_.origins(c_.args[1], through_calls=("::deref", "::as_str"))
+            if any((x[0] in ("arg", "local")) and x[1] == sl for x in os_):
+                raw_add.append(c_)
+    rep.examined(R139, pl_.path + "|uses", sample={"file_field_format_arguments": raw_fmt, "escaped_for_the_datetime_format": [c_.line for c_ in esc], "appended_unescaped": [c_.line for c_ in raw_add]})
+    if raw_fmt < 1:
+        raise CheckerError("processing_loop: the separator is not a format!() argument of the file field (idiom not recognised)")
+    if raw_add or not esc:
+        rep.violation(R139, pl_.path + "|datetime-format", "processing_loop: the separator is appended to the strftime format of the datetime field without escaping '%%' (line %s); "
+                      "`--prepend-separator '%%d|'` then prints a different separator after the datetime than after the file name, and a lone '%%' makes utmp/evtx/journal output panic" % (raw_add[0].line if raw_add else "?"))
+
+    # ------------------------------------------------------------ R13.10 lift of C02 R2.4
+    import contextlib as _cl2, io as _io2
+    import c02 as _c02
+    from common import Report as _Rep2
+    R1310 = rep.rule("R13.10", "fields and message text reach stdout in program order: no direct write overtakes buffered bytes (from C02 R2.4)")
+    _s2 = _Rep2("C02", "quick", dict(rep.meta))
+    _s2.finish = lambda *a, **k: 0
+    with _cl2.redirect_stdout(_io2.StringIO()):
+        _c02.run(prog, _s2, "quick")
+    for (rid_, key_, what_, det_) in _s2.violations:
+        if rid_ == "R2.4":
+            rep.violation(R1310, key_.split("|", 1)[1], what_)
+    for k_ in sorted(_s2.rules.get("R2.4", {}).get("keys", ()))[:40]:
+        rep.examined(R1310, k_, sample={"rule": "R2.4", "instance": k_})
+    rep.floor("R13.10", 10)
+
     # ------------------------------------------------------------ R13.8 datetime highlight decided for every ordering
     import highlight
     R138 = rep.rule("R13.8", "for every ordering of part and datetime bounds the pieces tile the part and the datetime colour covers exactly the datetime")
